@@ -72,10 +72,24 @@ MutPos(n) == IF Thorough THEN 1..n ELSE {i \in 1..n : i <= 20 \/ i > n - 4 \/ i 
 LenPrefixes(n) == {LE(x, 4) : x \in {0, 1, n - 1, n, n + 1, n + 2, 255, 65536}}
                \cup {<<255, 255, 255, 127>>, <<0, 0, 0, 128>>, <<252, 255, 255, 255>>, <<253, 255, 255, 255>>,
                      <<254, 255, 255, 255>>, <<255, 255, 255, 255>>, <<251, 255, 255, 255>>}
+\* ---- "lens": streams whose inner DELTA_BINARY_PACKED blocks are perfectly well formed but carry hostile
+\* NUMBERS (lengths / prefix lengths at the 32-bit boundaries, negative, larger than the data), followed by a few
+\* bytes of string data: the grammar is satisfied, only the arithmetic on the decoded lengths can protect the reader
+HostileLens == {<<0, 0, 0, 0>>, <<1, 0, 0, 0>>, <<3, 0, 0, 0>>, <<0, 0, 1, 0>>, <<253, 255, 255, 127>>, <<255, 255, 255, 127>>,
+                <<255, 255, 255, 255>>, <<0, 0, 0, 128>>}
+LensData == {<<>>, <<97>>, <<97, 98, 99>>, <<97, 98, 99, 100, 101, 102, 103, 104>>}
+DlenLens == {[f |-> "dlen", n |-> Len(ls), bytes |-> D!Ser(ls, 4, D!StdOpts) \o dt] :
+                ls \in UNION {[1..k -> HostileLens] : k \in 1..2}, dt \in LensData}
+DstrLens == {[f |-> "dstr", n |-> 1, bytes |-> D!Ser(<<p>>, 4, D!StdOpts) \o D!Ser(<<sf>>, 4, D!StdOpts) \o dt] :
+                p \in HostileLens, sf \in HostileLens, dt \in LensData}
+            \cup {[f |-> "dstr", n |-> 2, bytes |-> D!Ser(<<<<0, 0, 0, 0>>, p>>, 4, D!StdOpts) \o D!Ser(<<f1, sf>>, 4, D!StdOpts) \o dt] :
+                p \in HostileLens, sf \in HostileLens, f1 \in {<<1, 0, 0, 0>>, <<3, 0, 0, 0>>}, dt \in LensData}
 Init == c = [lvl |-> 0]
 Next ==
     \/ c.lvl = 0 /\ c' \in [lvl : {1}, o : {"alpha"}, b : Alphabet] \cup [lvl : {1}, o : {"mut"}, s : 1..NSeeds]
-                          \cup {[lvl |-> 2, o |-> "alpha", bytes |-> <<>>]}
+                          \cup {[lvl |-> 2, o |-> "alpha", bytes |-> <<>>]} \cup {[lvl |-> 1, o |-> "lens"]}
+    \/ c.lvl = 1 /\ c.o = "lens"
+       /\ c' \in {[lvl |-> 2, o |-> "lens", s |-> [f |-> x.f, bw |-> 0, n |-> x.n], bytes |-> x.bytes] : x \in DlenLens \cup DstrLens}
     \/ c.lvl = 1 /\ c.o = "alpha"
        /\ c' \in {[lvl |-> 2, o |-> "alpha", bytes |-> <<c.b>> \o t] : t \in UNION {[1..k -> Alphabet] : k \in 0..(MaxAlpha - 1)}}
     \/ c.lvl = 1 /\ c.o = "mut"
